@@ -43,7 +43,8 @@ CHECKS = {
               "bounded grammar CborGen (all major types, non-preferred widths, chunked strings, nested and indefinite containers, "
               "tags, floats), all alignments to windows 2..7; TLC generates the same items as scenarios which the driver places at "
               "every alignment around the real 65535-byte window (and exhaustively on a 5-byte window), reads/skips them and reads a "
-              "sentinel; every recorded outcome is validated against the specification."),
+              "sentinel, on string, file, forward-only, breaking and growing streams (items appended after the decoder saw the end of "
+              "what was there); every recorded outcome is validated against the specification."),
         design_ref="DESIGN.md section 3 / C07",
         note=TRUST + "the grammar slice is bounded (depth <= 6, about 130 item shapes); negative integers below -2^63 are outside "
                      "the return type and excluded.",
@@ -131,9 +132,11 @@ CHECKS = {
         text=("Same model and generator as C12 with rotation (export true/false), consecutive empty rotations and parameter sets added "
               "mid-stream: invariants self-contained outputs, closed outputs frozen, record stream conserved across outputs. Generated "
               "and random rotation-heavy histories run on the real exporter with file-name and descriptor outputs in three compression "
-              "modes; every closed output is parsed by TLC and must be empty or a complete valid file holding exactly the model's blocks."),
+              "modes (rotation onto the name in use, to descriptor 0, outputs of more than 2^16 blocks); every closed output is parsed by TLC "
+              "and must be empty or a complete valid file holding exactly the model's blocks."),
         design_ref="DESIGN.md section 3 / C13",
-        note=TRUST + "rotation with an argument of another kind than the constructor's is outside the statement and not generated.",
+        note=TRUST + "rotation with an argument of another kind than the constructor's is generated for descriptor histories; the pinned "
+                     "behaviour is a known finding (known_findings.json).",
         technique="TLA+ spec (Exporter.tla) model-checked with TLC; TLC-generated behaviours replayed and validated with TraceExporter.tla",
     ),
     "C11": dict(
@@ -143,7 +146,8 @@ CHECKS = {
               "each of the nine real tables with values handed over in fresh objects and in re-used scratch objects that keep their "
               "capacity (pairs differing in exactly one optional member, the empty list and the empty string among them), "
               "plus growth sequences of thousands of adds and longer random histories with assignments onto used blocks; every returned "
-              "index, size and read-back value is validated by TLC; 8 threads filling their own blocks at the same time. "
+              "index, size and read-back value is validated by TLC; 8 threads filling their own blocks at the same time; a block "
+              "handed from thread to thread (every other add on a thread of its own, never overlapping). "
               "Exporter streams across many flushes: TLC checks every written table for duplicates and index closure."),
         design_ref="DESIGN.md section 3 / C11",
         note=TRUST + "value ids are mapped to concrete table values by the driver (harness/tbl_driver.cpp).",
@@ -204,7 +208,8 @@ CHECKS = {
               "its k-th write/writev/rename for every k; TLC validates the system-call log (data only to .part, rename only "
               ".part -> final, nothing after the rename) and every post-crash directory (names re-used, stale .part files, "
               "compressed outputs closed while the compressor holds back tens of KiB, a final rotation that cannot succeed, a rename the "
-              "environment refuses, a final name that is a symbolic link, outputs whose last bytes align with the scaled staging buffer)."),
+              "environment refuses, a final name that is a symbolic link, outputs whose last bytes align with the scaled staging buffer, "
+              "sessions run inside a clean-up routine during stack unwinding)."),
         design_ref="DESIGN.md section 3 / C15",
         note=TRUST + "interposition of write/writev/rename in the driver executable; crash = _exit before the call (no power-loss semantics).",
         technique="TLA+ spec (Writer.tla) model-checked with TLC over all crash points + crash-point enumeration on the real code "
@@ -217,7 +222,8 @@ CHECKS = {
               "file-name/descriptor, rotations) is made to fail with ENOSPC, EIO or a short count, once and persistently; TLC walks "
               "the ordered log of API outcomes and system calls and checks reporting and the documented recovery (rotate to a "
               "healthy destination, write_block, complete valid file with the failed block's records), also when the failing write "
-              "lies inside a first block larger than the staging buffer. Three genuine defects of the "
+              "lies inside a first block larger than the staging buffer, and for a rotation whose argument is of the other kind than "
+              "the constructor's. Three genuine defects of the "
               "pinned code are recorded as known findings (known_findings.json); any other violation is reported."),
         design_ref="DESIGN.md section 3 / C16 and section 5",
         note=TRUST + "interposition of write/writev; destruction is outside the guarantee.",
@@ -231,7 +237,8 @@ CHECKS = {
               "empty-block-only, same file twice); the pinned pass-2 behaviour is a seeded self-test. Real cdns-merge runs on tuples "
               "of real exporter files (differing parameter sets, tick rates, hints, versions; truncated anywhere; missing, garbage, "
               "empty files; a file listed twice; ~40 files holding the same records under parameter sets exactly one member "
-              "apart; inputs written by TLC whose blocks hold statistics only): TLC parses all inputs and the output independently and compares block by block "
+              "apart; inputs written by TLC whose blocks hold statistics only; an unreadable input listed first before inputs of "
+              "another version): TLC parses all inputs and the output independently and compares block by block "
               "(records, statistics, parameter equality), and checks the stdout of cdns-itemcount for all four option combinations "
               "against the counts of the independent parse."),
         design_ref="DESIGN.md section 3 / C18",
@@ -249,7 +256,8 @@ CHECKS = {
               "the same driver runs under ThreadSanitizer, whose race report truncates the traces and is recorded as a violation; "
               "pairs of exporters and pairs of readers operated alternately on ONE thread must behave as if alone; "
               "every closed output of the concurrent run must be byte-identical to that of the same programs run one after "
-              "another on one thread (digests compared by TLC, TraceReader event B); concurrent readers likewise."),
+              "another on one thread (digests compared by TLC, TraceReader event B); concurrent readers likewise; copies of one read "
+              "block (constructed, assigned, moved) are walked by N threads at once and compared with an independent reading."),
         design_ref="DESIGN.md section 3 / C20",
         note=TRUST + "ThreadSanitizer; schedules are those the OS produced (sampled, with injected yields), not enumerated.",
         technique="TLA+ spec (Threads.tla) model-checked with TLC; per-thread traces of concurrent runs validated with "
@@ -265,7 +273,8 @@ CHECKS = {
               "up to 10^6, indefinite chunks announcing 2^47 bytes), random bytes, flipped and truncated valid files are fed to "
               "every decoder operation, the reader and accessors, every string() renderer (ASan+UBSan, allocation cap, 8 MiB stack) "
               "and to the five tools as child processes; TLC checks each recorded outcome is value/exception/end in bounded time; "
-              "blocks kept by move across reads are rendered twice with the freed memory scribbled in between."),
+              "blocks kept by move across reads are rendered twice with the freed memory scribbled in between; the decoder operations "
+              "that size something and the reader also run on forward-only streams, two tools read through a pipe."),
         design_ref="DESIGN.md section 3 / C03 and section 4",
         note="AddressSanitizer and UBSan are the instruments; the input space is sampled; TLC + CommunityModules; python orchestration "
              "of child processes and rlimits.",
